@@ -78,6 +78,12 @@ func extraMutants(c *chain.Chain, s *chain.Step, rng *rand.Rand) []chain.Mutant 
 			return true
 		})
 	}
+	if s.Block.Body().Payload != nil {
+		add("payload.extra_data:over-limit", "limits.extra_data", func(b *chain.SignedBlock, body chain.BodyRef) bool {
+			*body.Payload.ExtraData = make(common.ExtraData, int(c.Spec.MAX_EXTRA_DATA_BYTES)+1)
+			return true
+		})
+	}
 	if n := len(*s.Block.Body().AttesterSlashings); n > 0 {
 		i := rng.Intn(n)
 		add("attester_slashing.indices:over-limit", "limits.attesting_indices", func(b *chain.SignedBlock, body chain.BodyRef) bool {
